@@ -13,9 +13,12 @@
      every assertion violated at time 0 on w is violated at time 0 on w'.
    C20_silent: if every assertion is satisfied at time 0 nothing is reported.
    C20_total: on that fragment explain() does not raise.
-   C20_refuted_iff: outside the fragment the statement is false of the
-     faithful model (the open known finding), with the witness replayed on the
-     implementation by the check. *)
+   C20_refuted_iff, C20_refuted_temporal_under_predicate: outside the fragment
+     the statement is false of the faithful model (the two open known findings),
+     with the witnesses replayed on the implementation by the check.
+   The specification is the assertion evaluate() reports (the last one): the
+   check hands that assertion, with the named sub-specifications it refers to
+   inlined, to the model (repair D46). *)
 From Coq Require Import List Arith ZArith Lia.
 From RV Require Import Val Syntax Rho Sat Explain ExplainFacts ExplainCorrect ExtZ ExtZFacts.
 Import ListNotations.
@@ -70,6 +73,20 @@ Proof.
   destruct j as [|j]; try discriminate; reflexivity.
 Qed.
 Print Assumptions C20_refuted_iff.
+
+(* a temporal operator below a comparison: its samples are filtered by sign, which means nothing for a numeric operand
+   ((always[0,0] x) >= 1 on x = 0 reports nothing, and x = 5 satisfies it) *)
+Theorem C20_refuted_temporal_under_predicate :
+  exists (p : @formula ExtZVal) (w w' : trace) (tb : table),
+    explain ExtZArith std w 1 [p] = Some tb /\
+    (forall x j, inI j (tb_get x tb) = true -> sig w' x j = sig w x j) /\
+    ltb (rho ExtZArith std p w 1 0) (Fin 0) = true /\ ltb (rho ExtZArith std p w' 1 0) (Fin 0) = false.
+Proof.
+  exists (Pred CGeq (AlwT 0 0 (Var 0)) (@Const ExtZVal (Fin 1))), [[Fin 0]], [[Fin 5]], [(0, [])].
+  split; [vm_compute; reflexivity|]. split; [|split; vm_compute; reflexivity].
+  intros x j H. destruct x as [|x]; discriminate.
+Qed.
+Print Assumptions C20_refuted_temporal_under_predicate.
 
 Example C20_nonvacuous :
   SignLaws ExtZArith /\
